@@ -306,6 +306,64 @@ func runC16(c *ctx) {
 		c16Eval(c, c16Case{Source: "direct", Item: it})
 		c16Eval(c, c16Case{Source: "direct", Item: &ref.Item{Kind: ref.L, Children: []*ref.Item{it, {Var: "after"}}}})
 	}
+	// one list object used as the first element of two parents (user-built sharing): each parent keeps its own names
+	for nsub := 1; nsub <= 17; nsub++ {
+		var subArgs []interface{}
+		var subNames []string
+		for i := 0; i < nsub; i++ {
+			n := fmt.Sprintf("s%d", i)
+			subNames = append(subNames, n)
+			if i%2 == 0 {
+				subArgs = append(subArgs, ast.NewUintNode(1, n))
+			} else {
+				subArgs = append(subArgs, n)
+			}
+		}
+		var sub, p1, p2 ast.ItemNode
+		o := real.Try(func() {
+			sub = ast.NewListNode(subArgs...)
+			p1 = ast.NewListNode(sub, "p", ast.NewIntNode(2, "p2"))
+			p2 = ast.NewListNode(sub, "q", "q2", "q3")
+		})
+		c.NoteBulk(1, 1)
+		c.Class("shared-sub-list")
+		cs := c16Case{Source: "shared-sub-list", Text: fmt.Sprint(nsub)}
+		if o.Panicked {
+			c.Violation("C16/shared-sub-list-refused", o.String(), cs)
+			continue
+		}
+		want1 := append(append([]string{}, subNames...), "p", "p2")
+		want2 := append(append([]string{}, subNames...), "q", "q2", "q3")
+		if !real.EqStrs(p1.Variables(), want1) || !real.EqStrs(p2.Variables(), want2) || !real.EqStrs(sub.Variables(), subNames) {
+			c.Violation("C16/listing-vs-printed-order/shared-sub-list", fmt.Sprintf("Variables() = %q and %q (sub-list %q), want %q and %q", p1.Variables(), p2.Variables(), sub.Variables(), want1, want2), cs)
+			continue
+		}
+		c16Item(c, cs, p1, nil)
+		c16Item(c, cs, p2, nil)
+		// a list around both reuses the name p: refused, or every name once
+		var both ast.ItemNode
+		if o := real.Try(func() { both = ast.NewListNode(p1, ast.NewListNode(ast.NewBinaryNode("p"))) }); !o.Panicked {
+			c16Item(c, cs, both, nil)
+		}
+	}
+	// the same ellipsis name in two lists of one tree is a duplicate like any other name
+	for _, build := range []func() ast.ItemNode{
+		func() ast.ItemNode { return ast.NewListNode(ast.NewListNode(ast.NewUintNode(1, 1), "..."), "...") },
+		func() ast.ItemNode {
+			return ast.NewListNode(ast.NewListNode(ast.NewUintNode(1, 1), "...[0]"), ast.NewListNode(ast.NewUintNode(1, 2), "...[0]"))
+		},
+		func() ast.ItemNode {
+			return ast.NewListNode(ast.NewUintNode(1, 1), "lv", "...").FillVariables(map[string]interface{}{"lv": ast.NewListNode(ast.NewUintNode(1, 2), "...")})
+		},
+	} {
+		var node ast.ItemNode
+		o := real.Try(func() { node = build() })
+		c.NoteBulk(1, 1)
+		c.Class("same-ellipsis-name-twice")
+		if !o.Panicked {
+			c16Item(c, c16Case{Source: "same-ellipsis-name-twice"}, node, nil)
+		}
+	}
 	// whatever the factories let through has no variables and therefore must encode (also just beyond the size limit,
 	// where the factory is expected to refuse)
 	for _, k := range []ref.Kind{ref.F4, ref.F8, ref.I8, ref.U4, ref.I2} {
@@ -321,7 +379,7 @@ func runC16(c *ctx) {
 			}
 		}
 	}
-	c.Required = []string{"item-just-beyond-the-limit", "wide-item-with-variables", "rename-refused", "rename-accepted", "object/direct", "object/expanded", "object/message", "object/derived", "object/parsed", "variable-free", "with-variables"}
+	c.Required = []string{"item-just-beyond-the-limit", "shared-sub-list", "same-ellipsis-name-twice", "wide-item-with-variables", "rename-refused", "rename-accepted", "object/direct", "object/expanded", "object/message", "object/derived", "object/parsed", "variable-free", "with-variables"}
 }
 
 func replayC16(c *ctx, raw json.RawMessage) {
